@@ -28,6 +28,21 @@ CHECKS = {
  "C07": ("exploration", "runtime monitoring: checks taken at the instant each caller observes ctx.Done() (Stopped finished, unregistered, prior messages handled), scripted pills vs reference model, concurrent callers under injected yields; open finding reproduced by a directed scenario",
          "Every context observed done satisfied the conditions, in scripted (exact model) and free-running multi-caller executions; 'eventually' decided on state (actor seen stopped and unregistered => an open context can never close).",
          "drain guarantee judged only for single-request scenarios; open finding C07-stop-request-during-stopped-handler listed in known_findings.json", "DESIGN.md §4 C07"),
+ "C08": ("exploration", "runtime monitoring: global sequence numbers at begin/end of every Stopped handler, registry probes from inside Stopped, Children()/Parent() read from inside Receive, over PRNG trees with concurrent third-party poisons and injected lock delays",
+         "Every parent/child edge of every tree shut down satisfied child-Stopped-ends-before-parent-Stopped-begins and was unregistered before the stop context was done; Children()/Parent() equal to the model at every comparison point; the histories of the repaired findings replayed as directed cases.",
+         "ordering taken from one atomic counter; trees up to 150 nodes, depth 4", "DESIGN.md §4 C08"),
+ "C09": ("exploration", "runtime monitoring: k subscribed monitor actors log every event; per-send identity matching (unique tags) of DeadLetterEvent / EngineRemoteMissingEvent; marker rounds through the event stream decide that the event count settles and stays bounded",
+         "Each undeliverable send observed produced exactly one matching event at every live monitor, nil targets none, every send call returned, and the event count settled within the bound - with dead subscribers present.",
+         "secondary dead letters to subscribers that died meanwhile are not counted against user sends", "DESIGN.md §4 C09"),
+ "C10": ("exploration", "runtime monitoring: Producer invocation counters, duplicate-id events, per-instance receive logs and live intervals (global sequence counter) under injected delays at the registry's lock operations; race detector on the registry",
+         "In all concurrent spawn / stop / respawn executions produced exactly one Producer ran per contended id, duplicates changed nothing for the incumbent, instances of one id never overlapped, GetPID followed registration.",
+         "live interval = end of Started .. begin of Stopped", "DESIGN.md §4 C10"),
+ "C11": ("exploration", "runtime monitoring: per-request call/return records with unique ids, scripted responder behaviours (immediate, before Result, late, twice, never), registry probe after Result, dead-letter matching for late replies",
+         "Every Result observed returned the reply to its own request or an error not earlier than the timeout; response PIDs were unregistered afterwards; each late/second reply became exactly one DeadLetterEvent for that response PID.",
+         "response-id collisions (2^-31 per pair) are classified, not judged; the timeout is judged from below only", "DESIGN.md §4 C11"),
+ "C12": ("exploration", "runtime monitoring: per-subscriber event logs compared with a set-semantics reference model over single-goroutine histories (equal PIDs in distinct objects), per-broadcaster order under concurrent broadcasters, exact engine-event multisets for lifecycle scripts",
+         "Every history produced the exact expected log at every subscriber; concurrent broadcasters' events arrived once and in per-broadcaster order; lifecycle scripts published exactly the expected events.",
+         "flush by sentinel marker + direct message", "DESIGN.md §4 C12"),
  "C13": ("exploration", "runtime monitoring: recording middleware (enter / deferred exit) interleaved with the receiver log, checked for well nested blocks on all delivery paths of the scripted scenarios",
          "Every delivery observed (user, Initialized, Started, Stopped; normal, crash, restart, replay, max-restarts, shutdown) was wrapped exactly once by each layer in order.",
          "does not demand a nil sender on lifecycle deliveries", "DESIGN.md §4 C13"),
